@@ -30,11 +30,11 @@ class C06(VecCheck):
             "after every step (so all prefixes are covered); (ii) fault enumeration: every element-assigning operation x every fault position "
             "0..capacity+1 x every fill level x a follow-up operation, copyable-throwing and move-only-throwing element types; (iii) random "
             "sequences of length 30 over three objects, capacities 0..5, values 1..9, ~3% malformed operations, 15% fault plans in the throwing "
-            "variants; (iv) malformed stream; (v) corpus of the pre-repair witnesses; (vi) aliasing arguments: emplace(begin()+pos, v[k]) for every k relative to pos, emplace_back/insert/push_back(v[k]), insert/push_back of every short sub-range of the SAME vector at every position, v = v, v = std::move(v), from every fill level with pairwise distinct values, alone, before/after an ordinary operation and in pairs. A case is non-trivial when some object holds at least one "
+            "variants; (iv) malformed stream; (v) corpus of the pre-repair witnesses; (vi) aliasing arguments: emplace(begin()+pos, v[k]) for every k relative to pos, emplace_back/insert/push_back(v[k]), v = v, v = std::move(v) (iterator ranges into the vector itself are outside the contract and not compared), from every fill level with pairwise distinct values, alone, before/after an ordinary operation and in pairs. A case is non-trivial when some object holds at least one "
             "element at some step; distinct = distinct case line.")
     modelled_note = ("modelled, not verified: object lifetimes and std::unique_ptr<T[]> (all `capacity` elements live as long as the array), element "
                      "assignment = value transfer (move leaves a moved-from element), a throwing assignment throws before changing anything, "
-                     "arguments may alias the container (element references, sub-ranges of the same vector: modelled as reads of the own storage at the moment the code reads them); 'no leak / no double destruction' is exercised by the "
+                     "an argument may refer to a live element of the same vector (read when the code reads it); iterator ranges into the vector itself are outside the contract and not exercised; 'no leak / no double destruction' is exercised by the "
                      "driver's instance-counting element types under ASan+LSan only, not proved")
 
     def cases(self, tier, rng):
